@@ -298,36 +298,141 @@ def rule_r3(F, rep):
             rep.violation(R, "%s|foreign-impl" % imp["q"], "GcTrace implemented outside rsjsonnet_lang")
 
 
+def _with_new_callees(F, fn):
+    """fn and, transitively, the local functions it calls that did not exist on the reference tree (extracted helpers)"""
+    out, work = [fn], [fn]
+    seen = {fn.q}
+    while work:
+        g = work.pop()
+        for bb, t in g.body.calls():
+            f = t["f"]
+            q = f.get("r") if f.get("rlocal") else None
+            if q and q not in seen and F.is_new_fn(q):
+                h = F.fn_opt(q)
+                if h is not None and h.body is not None:
+                    seen.add(q)
+                    out.append(h)
+                    work.append(h)
+    return out
+
+
+def _const_value(P, x, depth=0):
+    """The compile-time value an operand carries: ("const", v) for a literal, ("var", adt, variant) for a field-less enum
+    variant built in place; None when it is not a single constant."""
+    if x["k"] == "const":
+        return ("const", x["v"]) if "v" in x and not isinstance(x["v"], (dict, list)) else None
+    if x["k"] not in ("copy", "move") or x["p"] or depth > 4:
+        return None
+    ds = P.defs.get(x["l"], [])
+    if len(ds) != 1 or ds[0][0] != "assign":
+        return None
+    rv = ds[0][3]["rv"]
+    if rv["k"] == "use":
+        return _const_value(P, rv["x"], depth + 1)
+    if rv["k"] == "agg" and rv.get("ak") == "adt" and not rv.get("xs"):
+        return ("var", rv["adt"], rv["v"])
+    return None
+
+
+def _gcbox_initial_state(F):
+    """{field: value} the allocator stores in the visits / mark cells of a fresh GcBox"""
+    init = {}
+    for fn, bb, si, s in cg.who_constructs(F, GCBOX, raw=True):
+        body = fn.body
+        P = prov.Prov(F, body)
+        rv = s["rv"]
+        # operands of a struct aggregate stand in declaration order: name them through the ADT definition (whose field names are
+        # those of the reference tree even when the source renamed them)
+        decl = [f["n"] for f in F.adt(GCBOX)["variants"][0]["fields"]]
+        if len(decl) != len(rv["xs"]):
+            raise kwalk.WalkLimit("GcBox aggregate in %s does not match the type's field list" % fn.q)
+        for name, x in zip(decl, rv["xs"]):
+            if name not in ("visits", "mark"):
+                continue
+            v = None
+            if x["k"] in ("copy", "move") and not x["p"]:
+                ds = P.defs.get(x["l"], [])
+                if len(ds) == 1 and ds[0][0] == "call" and (callee_name(ds[0][3]) or "") == "<core::cell::Cell>::new":
+                    v = _const_value(P, ds[0][3]["xs"][0])
+            if v is None:
+                raise kwalk.WalkLimit("the initial value of GcBox.%s in %s is not a constant" % (name, fn.q))
+            init.setdefault(name, set()).add(v)
+    for name in ("visits", "mark"):
+        if len(init.get(name, ())) != 1:
+            raise kwalk.WalkLimit("GcBox.%s has no unique initial value (%s)" % (name, sorted(map(str, init.get(name, ())))))
+    return {k: next(iter(v)) for k, v in init.items()}
+
+
+def _reset_sites(F, fn, init, reset_blocks, must_reset):
+    """Blocks of fn whose terminator writes the initial value back into GcBox.visits / GcBox.mark: a `Cell::set` on the field,
+    or a call of a helper (new function) that does so on every path to its return."""
+    body = fn.body
+    P = prov.Prov(F, body)
+    resets = {"visits": [], "mark": []}
+    for bb, t in body.calls():
+        f = t["f"]
+        if (callee_name(t) or "") == "<core::cell::Cell>::set":
+            val = _const_value(P, t["xs"][1])
+            if val is None:
+                continue
+            for o in P.origins_op(t["xs"][0]):
+                if o[0] == "field" and o[1] == GCBOX and o[2] in resets and val == init[o[2]] and (val[0] != "const" or val[1] == 0):
+                    if bb not in resets[o[2]]:
+                        resets[o[2]].append(bb)
+        elif f.get("rlocal") and f.get("r") in must_reset and f["r"] != fn.q:
+            for k in must_reset[f["r"]]:
+                if bb not in resets[k]:
+                    resets[k].append(bb)
+    reset_blocks[fn.q] = resets
+    succ = body.succ_map()
+    rets = {i for i, b in enumerate(body.blocks) if b["t"]["k"] == "return"}
+    must = set()
+    for k, bbs in resets.items():
+        if bbs and not (cfg.reachable(succ, [0], blocked_nodes=bbs) & rets):
+            must.add(k)
+    must_reset[fn.q] = must
+
+
 def rule_r4(F, rep):
     R = rep.rule("C03.R4", "the sweep resets visits to 0 and mark to false for every surviving object, and visits is "
                  "only incremented by the counting visitor, mark only set by gc() and the marking visitor")
     gc = F.fn("<%s>::gc" % GCCTX)
     rep.fn(gc)
-    body = gc.body
-    P = prov.Prov(F, body)
-    resets = {"visits": [], "mark": []}
-    for bb, t in body.calls():
-        if (callee_name(t) or "") == "<core::cell::Cell>::set":
-            org = P.origins_op(t["xs"][0])
-            val = t["xs"][1]
-            for o in org:
-                if o[0] == "field" and o[1] == GCBOX and o[2] in resets and val["k"] == "const" and val.get("v") == 0:
-                    resets[o[2]].append(bb)
+    # the per-collection state of an object is what the allocator gives a fresh GcBox: "reset" means "written back to that value"
+    # (0 / false today; the unit variant of a two-state enum if the flag is given a named type)
+    init = _gcbox_initial_state(F)
+    # gc() together with the helpers it was split into (functions that did not exist on the reference tree)
+    fns = _with_new_callees(F, gc)
+    reset_blocks = {}      # fn.q -> {field: [bb]}   blocks whose terminator resets the field (directly or through a helper)
+    must_reset = {}        # fn.q -> {field}          fields reset on every returning path of the helper
+    for fn in reversed(fns):
+        _reset_sites(F, fn, init, reset_blocks, must_reset)
+    for fn in fns:       # a helper that calls a helper summarised later in the order
+        _reset_sites(F, fn, init, reset_blocks, must_reset)
     # a straight-line pair: one reset dominates the other with no branch in between that skips it
-    dom = cfg.dominators(body.succ_map(), 0)
     pair = False
-    for vb in resets["visits"]:
-        for mb in resets["mark"]:
-            a, b = (vb, mb) if vb in dom.get(mb, ()) else ((mb, vb) if mb in dom.get(vb, ()) else (None, None))
-            if a is None:
-                continue
-            # every path from a reaches b before leaving: b post-dominates a on non-unwind edges
-            succ = body.succ_map()
-            r = cfg.reachable(succ, [a], blocked_nodes=[b])
-            exits = [x for x in r if body.blocks[x]["t"]["k"] == "return" or a in succ[x] and x != a]
-            if not exits:
-                pair = True
-    rep.ob(R, "sweep-reset", pair, {"visits_reset_blocks": resets["visits"], "mark_reset_blocks": resets["mark"]})
+    seen_sites = {"visits": [], "mark": []}
+    for fn in fns:
+        body = fn.body
+        resets = reset_blocks[fn.q]
+        for k in seen_sites:
+            seen_sites[k] += ["%s:bb%d" % (fn.q, b) for b in resets[k]] if fn is not gc else list(resets[k])
+        succ = body.succ_map()
+        dom = cfg.dominators(succ, 0)
+        for vb in resets["visits"]:
+            for mb in resets["mark"]:
+                if vb == mb:
+                    pair = True      # one helper call that resets both on all of its paths
+                    continue
+                a, b = (vb, mb) if vb in dom.get(mb, ()) else ((mb, vb) if mb in dom.get(vb, ()) else (None, None))
+                if a is None:
+                    continue
+                # every path from a reaches b before leaving: b post-dominates a on non-unwind edges
+                r = cfg.reachable(succ, [a], blocked_nodes=[b])
+                exits = [x for x in r if body.blocks[x]["t"]["k"] == "return" or a in succ[x] and x != a]
+                if not exits:
+                    pair = True
+    rep.ob(R, "sweep-reset", pair, {"visits_reset_blocks": seen_sites["visits"], "mark_reset_blocks": seen_sites["mark"]})
     if not pair:
         rep.violation(R, "%s|sweep-reset" % gc.q, "the sweep does not reset both visits (0) and mark (false) on the "
                       "retain path: stale counts/marks leak into the next collection", gc.loc)
